@@ -99,6 +99,10 @@ def get_scoped_setup_inputs(
             if is_side_effect_free(val.owner):
                 if val.owner in inputs:
                     continue
+                # an op with regions may use values we do not track inside them: moving it could
+                # place it in front of their definitions
+                if val.owner.regions:
+                    return None
                 # if it is effect free, we recurse on it's operands
                 vals_to_inspect.extend(val.owner.operands)
                 # and note the operation down as one that computes our input variables
